@@ -42,19 +42,25 @@ package grpcgcp
 
 //@ typeinv gcpBalancer := this.cc != nil && this.csEvltr != nil && this.log != nil
 //@ typeinv gcpPicker := this.gb != nil && this.log != nil
+//@ typeinv gcpPicker := forall x in this.scRefs :: x != nil
+//@ typeinv gcpPicker := this.gb.cfg != nil
+//@ typeinv gcpLogger := this.logger != nil
+//@ protect gcpLogger.{logger,prefix} immutable
 //@ globalinv deErr != nil && compLogger != nil
 
 // ---------------------------------------------------------------- pool invariant (lock invariant of gcpBalancer.mu)
 
-//@ inv gcpBalancer.mu I0 [C05] := this.affinityMap != nil && this.fallbackMap != nil && this.scStates != nil && this.scRefs != nil && this.refreshingScRefs != nil && this.picker != nil && this.methodCfg != nil
-//@ inv gcpBalancer.mu I1 [C01 C05] := forall sc balancer.SubConn :: {sc in this.scRefs} sc in this.scRefs ==> sc != nil && this.scRefs[sc] != nil && this.scRefs[sc].subConn == sc
+//@ inv gcpBalancer.mu I0 [C05] := this.affinityMap != nil && this.fallbackMap != nil && this.scStates != nil && this.scRefs != nil && this.refreshingScRefs != nil && this.picker != nil && this.methodCfg != nil && this.scRefs != this.refreshingScRefs && this.affinityMap != this.fallbackMap
+//@ inv gcpBalancer.mu I9 [C05 C09] := forall x in this.scRefList :: x != nil
+//@ inv gcpBalancer.mu I11 [C05 C17] := (forall sc in this.scStates :: this.cfg != nil) && (forall sc in this.refreshingScRefs :: this.cfg != nil) && (forall k in this.affinityMap :: this.cfg != nil)
+//@ inv gcpBalancer.mu I1 [C01 C05] := forall sc balancer.SubConn :: {sc in this.scRefs} sc in this.scRefs ==> sc != nil && this.scRefs[sc] != nil && isa(this.scRefs[sc]) && this.scRefs[sc].subConn == sc
 //@ inv gcpBalancer.mu I2 [C04 C05] := forall sc balancer.SubConn :: {sc in this.scRefs} {sc in this.scStates} (sc in this.scRefs) == (sc in this.scStates)
 
-//@ inv gcpBalancer.mu I3 [C05] := forall sc balancer.SubConn :: {sc in this.scRefs} sc in this.scRefs ==> this.scRefs[sc].stateSignal != nil
-//@ inv gcpBalancer.mu I3r [C05] := forall sc balancer.SubConn :: {sc in this.refreshingScRefs} sc in this.refreshingScRefs ==> this.refreshingScRefs[sc].stateSignal != nil
-//@ inv gcpBalancer.mu SigInv [C05] := forall r *subConnRef :: {r.stateSignal} r.stateSignal != nil ==> !closed(r.stateSignal) && r.stateSignal <= $alloc
-//@ inv gcpBalancer.mu SigInj [C05] := forall r1 *subConnRef, r2 *subConnRef :: {r1.stateSignal, r2.stateSignal} r1 != r2 && r1.stateSignal != nil ==> r1.stateSignal != r2.stateSignal
-//@ inv gcpBalancer.mu I8 [C05 C07] := forall sc balancer.SubConn :: {sc in this.refreshingScRefs} sc in this.refreshingScRefs ==> sc != nil && this.refreshingScRefs[sc] != nil && !(sc in this.scRefs) && this.refreshingScRefs[sc].subConn != sc
+//@ tracked subConnRef
+//@ inv gcpBalancer.mu Sig [C05] := forall r *subConnRef :: {isa(r)} isa(r) ==> r.stateSignal != nil && !closed(r.stateSignal) && r.stateSignal <= $alloc
+//@ inv gcpBalancer.mu SigInj [C05] := forall r1 *subConnRef, r2 *subConnRef :: {isa(r1), isa(r2)} isa(r1) && isa(r2) && r1 != r2 ==> r1.stateSignal != r2.stateSignal
+//@ inv gcpBalancer.mu I14 [C05 C03] := (forall sc in this.scRefs :: $created[sc]) && (forall sc in this.refreshingScRefs :: $created[sc]) && (forall r *subConnRef :: {isa(r)} isa(r) ==> $created[r.subConn])
+//@ inv gcpBalancer.mu I8 [C05 C07] := forall sc balancer.SubConn :: {sc in this.refreshingScRefs} sc in this.refreshingScRefs ==> sc != nil && this.refreshingScRefs[sc] != nil && isa(this.refreshingScRefs[sc]) && !(sc in this.scRefs) && this.refreshingScRefs[sc].subConn != sc
 //@ inv gcpBalancer.mu I6 [C04] := this.csEvltr.numReady == count(this.scStates, connectivity.Ready) && this.csEvltr.numConnecting == count(this.scStates, connectivity.Connecting) && this.csEvltr.numTransientFailure == count(this.scStates, connectivity.TransientFailure)
 
 // ---------------------------------------------------------------- balancer
@@ -75,3 +81,56 @@ package grpcgcp
 //@ func (gb *gcpBalancer) unbindSubConn
 //@ func (gb *gcpBalancer) UpdateSubConnState
 //@   requires sc != nil
+//@ func (gb *gcpBalancer) UpdateClientConnState
+//@ func (gb *gcpBalancer) ResolverError
+//@ func (gb *gcpBalancer) Close
+//@ func (gb *gcpBalancer) getConnectionPoolSize
+//@ func (gb *gcpBalancer) newSubConn
+//@   requires gb.cfg != nil
+//@ func (gb *gcpBalancer) refresh
+//@   requires ref != nil && gb.cfg != nil
+//@   ensures [C07.refresh-once] old(ref.refreshing) ==> $newCalls == old($newCalls) && ref.refreshing && (forall sc balancer.SubConn :: (sc in gb.refreshingScRefs) == old(sc in gb.refreshingScRefs))
+//@   ensures [C07.refresh-create] !old(ref.refreshing) ==> $newCalls == old($newCalls) + 1
+//@   ensures [C07.refresh-ok] !old(ref.refreshing) && $newFail == old($newFail) ==> ref.refreshing && len(gb.refreshingScRefs) == old(len(gb.refreshingScRefs)) + 1 && (forall sc balancer.SubConn :: sc in gb.refreshingScRefs && !old(sc in gb.refreshingScRefs) ==> gb.refreshingScRefs[sc] == ref && !old($created[sc]) && $addrs[sc] == gb.addrs && $connectRequested[sc])
+//@   ensures [C07.refresh-fail] $newFail != old($newFail) ==> !ref.refreshing && (forall sc balancer.SubConn :: (sc in gb.refreshingScRefs) == old(sc in gb.refreshingScRefs))
+//@ func (gb *gcpBalancer) getReadySubConnRef
+//@ func (gb *gcpBalancer) getSubConnRoundRobin
+//@   requires ctx != nil
+//@   ensures result != nil
+//@   loop 1 blocking
+//@ func (gb *gcpBalancer) addSubConn
+//@   inline
+//@ func (gb *gcpBalancer) enforceMinSize
+//@   inline
+//@   loop 1 invariant lockinv(gb.mu)
+//@ func (gb *gcpBalancer) initializeConfig
+//@   inline
+//@ func (gb *gcpBalancer) regeneratePicker
+//@   inline
+//@   loop 1 invariant forall x in readyRefs :: x != nil
+//@
+//@ func NewGCPLogger
+//@   requires logger != nil
+//@   ensures result != nil
+//@   constructor
+//@ func newGCPPicker
+//@   requires gb != nil
+//@   requires forall x in readySCRefs :: x != nil
+//@   requires gb.cfg != nil
+//@   ensures result is *gcpPicker && result.(*gcpPicker).gb == gb && result.(*gcpPicker).scRefs == readySCRefs
+//@   constructor gcpPicker
+//@ func newErrPicker
+//@   ensures result is *errPicker && result.(*errPicker).err == err
+//@
+//@ func (p *gcpPicker) Pick
+//@   requires info.Ctx != nil
+//@ func (p *gcpPicker) getLeastBusySubConnRef
+//@   requires len(p.scRefs) > 0
+//@ func (p *gcpPicker) getAndIncrementSubConnRef
+//@   requires len(p.scRefs) > 0 && ctx != nil
+//@ func (p *gcpPicker) getSubConnRef
+//@   inline
+//@ func (p *gcpPicker) detectUnresponsive
+//@   requires scRef != nil && ctx != nil
+//@ func (p *gcpPicker) unresponsiveWindow
+//@   requires scRef != nil
